@@ -3,6 +3,8 @@
    C06/C18's `finalise_after_last_write`. *)
 From XcpModel Require Import Base Meta.
 From XcpProofs Require Import MetaProofs.
+From XcpModel Require Import Extracted.
+From XcpProofs Require Import ExtractedOk.
 
 (* for ALL modes (0..07777 and beyond: masked), times, xattr sets, uid/gid and
    flag combinations, and any previous destination metadata *)
@@ -55,7 +57,15 @@ Example C10_nonvacuous :
   m_mode (finalise (mkFin false false true true) (mkMeta 3565 1000 100 5 6 [(1, 9)]) (mkMeta 420 0 0 0 0 [])) = 3565.
 Proof. vm_compute. reflexivity. Qed.
 
+(* ---- tie to the current source (translator): the model's definitions used above are
+   EQUAL to what /verif/xlate extracts from the repository on this run ---- *)
+Theorem C10_src_finalise_order : forall c src,
+  finalise_actions c src =
+  flat_map (fun s => if step_enabled c s then actions_of_step (fst s) src else []) x_finalise_order.
+Proof. exact x_finalise_order_ok. Qed.
+
 Print Assumptions C10_meta_preserved.
 Print Assumptions C10_ownership_keeps_setid.
 Print Assumptions C10_flags_suppress_actions.
 Print Assumptions C10_create_mode.
+Print Assumptions C10_src_finalise_order.
